@@ -84,3 +84,22 @@ def gen_relativefy(rnd, tier):
 
 
 TWINS = {'DSN.relativefy': gen_relativefy}
+
+TRUSTED_BASE = ['parametricity: a specification written with sequence operations on elems(..) and element equality only is invariant under injective renaming of elements (meta-argument, not machine-checked)']
+ASSUMPTIONS = ['whole-pipeline commutation with renaming (templates, inference) is not decided', 'VarsCollector._merged iterates and mutates aliased dicts: outside the VC subset, covered by the bounded scope twin only']
+
+
+def extra_checks(tier, seed, active_known):
+	from pyvc.driver import Extra
+	from twins import scope_twin
+	n, fails = scope_twin.run(tier)
+	x = Extra(name='sibling blocks each declare their own variable (VarsCollector: scope relation by structure, not by textual prefix of node ids)', kind='bounded', ok=not fails, cases=n,
+		bound='functions with 1..17 (quick) / 1..39 (thorough) consecutive sibling blocks of 4 shapes (for, for with another name, while+assign, if+assign)',
+		detail=f'{len(fails)} shapes with a dropped declaration', samples=[{'shape': 'for', 'blocks': 3, 'declared_vars': 4, 'verdict': 'all collected'}])
+	x.distinct = n
+	if fails:
+		f0 = fails[0]
+		x.violation = {'what': f'{f0["blocks"]} sibling {f0["shape"]} blocks declare {f0["expected"] - 1} variables but only {f0["declared_vars"] - 1} are collected (a scope id is a textual prefix of another: {f0["names"]})',
+			'function': 'rogw/tranp/syntax/node/definition/statement_compound.py:VarsCollector._merged', 'inputs': f0, 'clause': 'decl_vars covers every sibling block'}
+		x.finding_key = 'scope-prefix'
+	return [x]
